@@ -89,7 +89,7 @@ def check(run):
     bookrun.setup()
     rnd = run.rng
     quick = run.tier == 'quick'
-    n = 45 if quick else 1500
+    n = 45 if quick else 450            # (1500 took 56 minutes)
     tmp = tempfile.mkdtemp(prefix='verif_c03_')
     req, pend = [], []
     nseed = 0
